@@ -47,6 +47,28 @@ def run(ctx):
         a = sb.nodes[sb.strip(n["args"][3])]
         ctx.check(a["k"] == "DeclRefExpr" and a["name"] == "cmp_ev", "R16.1", "sort_buf:qsort-uses-cmp_ev", sb.loc(),
                   "qsort is called with comparator %s" % sb.src(n["args"][3]))
+    # sort_buf sorts the whole table of the range: qsort gets the table's first slot, all n events, the pointer
+    # size and cmp_ev, and the same table and n are written back
+    qa, wa = [], []
+    sums_sb = {"malloc": lambda ex_, st, a, f, e: [(PTR("BUF2", (0,)), {})],
+               "calloc": lambda ex_, st, a, f, e: [(PTR("TABLE", (0,)), {})],
+               "memcpy": lambda ex_, st, a, f, e: [(TOP, {})], "__builtin___memcpy_chk": lambda ex_, st, a, f, e: [(TOP, {})],
+               "count_events": lambda ex_, st, a, f, e: [(INT(5), {})],
+               "index_events": lambda ex_, st, a, f, e: [(TOP, {})],
+               "qsort": lambda ex_, st, a, f, e: (qa.append(tuple(a)), [(TOP, {})])[1],
+               "write_events": lambda ex_, st, a, f, e: (wa.append(tuple(a)), [(TOP, {})])[1],
+               "free": lambda ex_, st, a, f, e: [(TOP, {})]}
+    exsb = absint.Explorer(prog, effects=eff, summaries=sums_sb, loop_bound=3)
+    outs_sb = [o for o in exsb.run(sb, [PTR("SRC", (0,)), PTR("OUT", (0,)), INT(60)],
+                                   {(("G", "src/common.c", "is_debug_enabled"), ()): INT(0)}) if o.kind in ("ret", "exit")]
+    psz = prog.records.get("ovni_ev") and 8
+    good_sb = bool(outs_sb) and len(qa) >= 1 and all(
+        q[0] == PTR("TABLE", (0,)) and q[1] == INT(5) and q[2] == INT(8) and q[3] == ("fn", "cmp_ev") for q in qa) and \
+        len(wa) >= 1 and all(w[0] == PTR("TABLE", (0,)) and w[1] == INT(5) and w[2] == PTR("OUT", (0,)) for w in wa)
+    ctx.check(good_sb, "R16.1", "sort_buf:sorts-the-whole-table", sb.loc(),
+              "with 5 events in the range, qsort is given %s and write_events %s; expected the table's first slot, "
+              "5 elements of pointer size and cmp_ev, then the same table written to the output buffer" %
+              ([tuple(str(x) for x in q) for q in qa], [tuple(str(x) for x in w) for w in wa]))
     HD = F("ovni_ev", "header") + F("ovni_ev_header", "clock")
     ex = absint.Explorer(prog, effects=eff)
     # the table elements are pointers into one buffer: events at offsets 100 < 200
